@@ -1,31 +1,62 @@
 #!/venv/bin/python
 """Re-run every seeded change against the quick tier of the check(s) named in its meta.json (scratch worktree, VERIF_REPO).
-Writes seeded/results.json: {seed: {check: caught|missed|n/a}}. usage: tools/rerun_seeds.py [seed-prefix ...]"""
+Writes seeded/results.json: {seed: {check: caught|missed|does-not-apply}}.
+usage: tools/rerun_seeds.py [--workers N] [--jobs J] [seed-prefix ...]"""
 import json
 import os
 import re
 import subprocess
 import sys
+import tempfile
+from concurrent.futures import ThreadPoolExecutor
 
-V = "/verif"
-EXPECT_NOT = {"C06-d": "obsolete since fix 41c5286", "C02-d": "breaks only the clause that is not claimed"}
+V = os.path.dirname(os.path.dirname(os.path.abspath(__file__)))
+EXPECT_NOT = {"C06-d": "obsolete since fix 41c5286", "C02-d": "breaks only the clause that is not claimed",
+              "C02-i": "breaks only the text of the job script (C15), not the claimed clause"}
+argv = sys.argv[1:]
+
+
+def opt(flag, default):
+    if flag in argv:
+        i = argv.index(flag)
+        v = int(argv[i + 1])
+        del argv[i:i + 2]
+        return v
+    return default
+
+
+workers = opt("--workers", 1)
+jobs = opt("--jobs", os.cpu_count() or 4)
 res_path = os.path.join(V, "seeded", "results.json")
 res = json.load(open(res_path)) if os.path.exists(res_path) else {}
-for seed in sorted(os.listdir(os.path.join(V, "seeded"))):
+
+
+def run_one(seed):
     d = os.path.join(V, "seeded", seed)
-    if not os.path.isdir(d) or (sys.argv[1:] and not any(seed.startswith(a) for a in sys.argv[1:])):
-        continue
     meta = json.load(open(os.path.join(d, "meta.json")))
     checks = sorted(set(re.findall(r"\./check (C\d\d)", meta["caught_by"]))) or [meta["property"]]
     out = {}
     for c in checks:
-        r = subprocess.run([os.path.join(V, "tools", "try_seeded_wt.sh"), os.path.join(d, "patch.diff"), c], capture_output=True, text=True)
-        out[c] = "caught" if "rc=1" in r.stdout and "VIOLATION property=" + c in r.stdout else ("does-not-apply" if "patch does not apply" in r.stdout else "missed")
+        rp = tempfile.mkdtemp(prefix="replays-", dir="/tmp")
+        env = dict(os.environ, VERIF_REPLAYS=rp)
+        r = subprocess.run([os.path.join(V, "tools", "try_seeded_wt.sh"), os.path.join(d, "patch.diff"), c, "--jobs", str(jobs)],
+                           capture_output=True, text=True, env=env)
+        subprocess.run(["rm", "-rf", rp])
+        out[c] = "caught" if "rc=1" in r.stdout and "VIOLATION property=" + c in r.stdout else (
+            "does-not-apply" if "patch does not apply" in r.stdout else "missed")
+        if out[c] == "caught":
+            break
     if seed in EXPECT_NOT:
         out["note"] = EXPECT_NOT[seed]
-    res[seed] = out
-    print(seed, out)
-    sys.stdout.flush()
-    json.dump(res, open(res_path, "w"), indent=1, sort_keys=True)
+    print(seed, out, flush=True)
+    return seed, out
+
+
+seeds = [s for s in sorted(os.listdir(os.path.join(V, "seeded")))
+         if os.path.isdir(os.path.join(V, "seeded", s)) and (not argv or any(s.startswith(a) for a in argv))]
+with ThreadPoolExecutor(max_workers=workers) as ex:
+    for seed, out in ex.map(run_one, seeds):
+        res[seed] = out
+        json.dump(res, open(res_path, "w"), indent=1, sort_keys=True)
 bad = [s for s, o in res.items() if s not in EXPECT_NOT and not any(v == "caught" for v in o.values())]
 print("seeds not caught by any of their checks:", bad)
